@@ -361,3 +361,93 @@ func TruthRuns(bin string, base string, emit func(Ev)) error {
 	}
 	return nil
 }
+
+// ---- C05 on real processes: stop of a real run, obeying / ignoring children, signalOnStop, repeat ----------------
+
+// StopRuns starts the real binary on DAGs whose steps are real shell processes, issues the real `stop`
+// command once the step is running, and measures how and when the run ends.
+func StopRuns(bin string, base string, emit func(Ev)) error {
+	type variant struct {
+		name, step string
+		cleanup    int // maxCleanUpTimeSec
+		selfEnd    float64
+	}
+	variants := []variant{
+		{"obey", "command: sh -c \"echo started >> MARKER; sleep 30\"", 3, 30},
+		{"ignore", "command: sh -c \"trap '' TERM; echo started >> MARKER; sleep 14\"", 2, 14},
+		{"sigint", "command: sh -c \"trap 'echo gotint >> MARKER; exit 0' INT; trap '' TERM; echo started >> MARKER; while true; do sleep 0.1; done\"\n    signalOnStop: SIGINT", 3, 1e9},
+		{"repeat", "command: sh -c \"echo started >> MARKER; sleep 1; echo iterdone >> MARKER\"\n    repeatPolicy:\n      repeat: true\n      intervalSec: 1", 4, 1e9},
+	}
+	type result struct {
+		ev Ev
+	}
+	results := make(chan Ev, len(variants))
+	for i, v := range variants {
+		go func(i int, v variant) {
+			e := newAgentEnv(base, 5000+i, 0)
+			defer e.cleanup()
+			y := fmt.Sprintf("logDir: %s\nmaxCleanUpTimeSec: %d\nhandlerOn:\n  cancel:\n    command: sh -c \"echo oncancel >> %s\"\n  exit:\n    command: sh -c \"echo onexit >> %s\"\n  success:\n    command: sh -c \"echo onsuccess >> %s\"\nsteps:\n  - name: s1\n    %s\n  - name: s2\n    command: sh -c \"echo s2ran >> %s\"\n    depends: [s1]\n",
+				e.logs, v.cleanup, e.marker, e.marker, e.marker, strings.ReplaceAll(v.step, "MARKER", e.marker), e.marker)
+			os.WriteFile(e.file, []byte(y), 0o644)
+			c := exec.Command(bin, "start", e.file)
+			c.Env = e.env
+			rec := Ev{"kind": "stop", "variant": v.name, "cleanupSec": v.cleanup, "infra": ""}
+			if err := c.Start(); err != nil {
+				rec["infra"] = err.Error()
+				results <- rec
+				return
+			}
+			waited := make(chan error, 1)
+			go func() { waited <- c.Wait() }()
+			// wait for the step process
+			dl := time.Now().Add(5 * time.Second)
+			for time.Now().Before(dl) && len(e.markerLines()) == 0 {
+				time.Sleep(10 * time.Millisecond)
+			}
+			if len(e.markerLines()) == 0 {
+				c.Process.Kill()
+				rec["infra"] = "step never started"
+				results <- rec
+				return
+			}
+			time.Sleep(150 * time.Millisecond)
+			t0 := time.Now()
+			sc := exec.Command(bin, "stop", e.file)
+			sc.Env = e.env
+			so, serr := sc.CombinedOutput()
+			rec["stopExit"] = exitCode(serr)
+			_ = so
+			ended := false
+			select {
+			case <-waited:
+				ended = true
+			case <-time.After(time.Duration(v.cleanup+12) * time.Second):
+				c.Process.Kill()
+				<-waited
+			}
+			took := time.Since(t0).Seconds()
+			time.Sleep(50 * time.Millisecond)
+			lines := e.markerLines()
+			count := func(s string) int {
+				n := 0
+				for _, l := range lines {
+					if l == s {
+						n++
+					}
+				}
+				return n
+			}
+			status, lerr := e.latest()
+			rec["ended"], rec["tookSec"] = ended, took
+			rec["withinBound"] = ended && took <= float64(v.cleanup)+8 // MaxCleanUpTime + the 5 s resend tick / 3 s poll + slack
+			rec["status"], rec["statusErr"] = status, lerr
+			rec["started"], rec["iterdone"], rec["gotint"] = count("started"), count("iterdone"), count("gotint")
+			rec["oncancel"], rec["onexit"], rec["onsuccess"], rec["s2ran"] = count("oncancel"), count("onexit"), count("onsuccess"), count("s2ran")
+			results <- rec
+		}(i, v)
+	}
+	for range variants {
+		emit(<-results)
+	}
+	return nil
+}
